@@ -3,6 +3,7 @@ import gin
 from gin import selector_map
 from vf import rt
 from vf import world
+from vf.spec.selmap import spec_matching
 
 VOC = ['a', 'b.a', 'a.b.a', 'b.b.a', 'a.b', 'b.a.b', 'b', 'a.a', 'a.a.b', 'b.b']
 T = '$'
@@ -30,12 +31,6 @@ def build(names, values):
 def suffixes(n):
   parts = n.split('.')
   return ['.'.join(parts[i:]) for i in range(len(parts))]
-
-
-def spec_matching(names, q):
-  if q in names:
-    return [q]
-  return sorted(n for n in names if n == q or n.endswith('.' + q))
 
 
 def queries(nvoc):
